@@ -133,6 +133,35 @@ func runBatch(c batchCase) harness.Result {
 		}
 	}
 	labels := []string{fmt.Sprintf("fc%d", fc), framing.String()}
+	switch c.Caller {
+	case 1:
+		labels = append(labels, "caller-overwrites-its-slice")
+	case 2:
+		labels = append(labels, "two-AddAll-calls")
+	}
+	{
+		// distinct addresses per target: implementations may switch data structure at a size
+		addrs := map[string]map[uint16]bool{}
+		most := 0
+		for _, f := range c.Fields {
+			k := fmt.Sprintf("%s|%d", f.ServerAddress, f.UnitID)
+			if addrs[k] == nil {
+				addrs[k] = map[uint16]bool{}
+			}
+			addrs[k][f.Address] = true
+			if len(addrs[k]) > most {
+				most = len(addrs[k])
+			}
+		}
+		switch {
+		case most >= 256:
+			labels = append(labels, "target-with>=256-addresses")
+		case most >= 128:
+			labels = append(labels, "target-with>=128-addresses")
+		case most >= 32:
+			labels = append(labels, "target-with>=32-addresses")
+		}
+	}
 	if err != nil {
 		if reqs != nil {
 			return harness.Fail("builder returned requests together with error %v", err)
